@@ -20,24 +20,36 @@ fn main() {
     let mut report = Report::new(
         "C18",
         args.seed,
-        "random commit histories (as C17) on a store with pruning on (even cases) / off (odd cases); non-trivial = >= 3 commits, \
+        "the C17 boundary family (each history once with pruning on and once off, identical for every seed) followed by random commit histories (as C17) on a store with pruning on (even cases) / off (odd cases); non-trivial = >= 3 commits, \
          a reset or delete hit existing data and an entity or partition was re-created after having been emptied; distinct by history text",
     );
     let mut cw = CaseWriter::new("RV.Corr.C18_run RV.Model.C17_Jmt RV.Model.C18_Store", "check18");
     let root = Rng::new(args.seed);
+    let family = boundary_family();
     for i in 0..args.cases {
         let mut rng = root.fork(i as u64);
         let pruning = i % 2 == 0;
+        // every boundary history is run once with pruning and once without
+        let boundary = family.get(i / 2);
         let pools = gen_pools(&mut rng);
         let long_keys = pools.entities[0].len() > 8;
-        let n = if long_keys { rng.range(2, 3) } else { rng.range(3, 9) } as usize;
+        let n = if let Some(b) = boundary {
+            b.commits.len()
+        } else if long_keys {
+            rng.range(2, 3) as usize
+        } else {
+            rng.range(3, 9) as usize
+        };
         let mut db: BTreeMap<SubKey, Vec<u8>> = BTreeMap::new();
         let mut commits = vec![];
         let mut removed_existing = false;
         let mut emptied: std::collections::BTreeSet<(Vec<u8>, u8)> = Default::default();
         let mut recreated = false;
-        for _ in 0..n {
-            let c = gen_commit(&mut rng, &pools, &db);
+        for j in 0..n {
+            let c = match boundary {
+                Some(b) => b.commits[j].clone(),
+                None => gen_commit(&mut rng, &pools, &db),
+            };
             let before = db.len();
             let parts_before: std::collections::BTreeSet<(Vec<u8>, u8)> = db.keys().map(|k| (k.0.clone(), k.1)).collect();
             apply_to_map(&mut db, &c);
@@ -58,7 +70,12 @@ fn main() {
             report.count_n("resets", resets);
             commits.push(c);
         }
-        if recreated {
+        if let Some(b) = boundary {
+            report.count(&format!("boundary.{}.{}", b.class, if pruning { "pruned" } else { "kept" }));
+        } else {
+            report.count("random_histories");
+        }
+        if recreated && boundary.is_none() {
             report.count("histories_recreating_an_emptied_partition");
         }
         report.count_n("commits", n as u64);
@@ -130,7 +147,17 @@ fn main() {
     }
     report.floor("resets", args.cases as u64 / 8);
     report.floor("stale_subtrees", args.cases as u64 / 40);
-    report.floor("histories_recreating_an_emptied_partition", args.cases as u64 / 10);
+    if args.cases >= 2 * family.len() {
+        for b in &family {
+            report.floor(&format!("boundary.{}.pruned", b.class), 1);
+            report.floor(&format!("boundary.{}.kept", b.class), 1);
+        }
+        let random = (args.cases - 2 * family.len()) as u64;
+        if random > 0 {
+            report.floor("random_histories", 1);
+            report.floor("histories_recreating_an_emptied_partition", random / 10);
+        }
+    }
     if !args.oracle_only {
         cw.write(&args.out, args.shards).unwrap();
     }
